@@ -8,7 +8,9 @@
 
 mod common;
 
+mod c04;
 mod c08;
+mod c18;
 
 use std::{collections::BTreeSet, path::PathBuf};
 
@@ -99,7 +101,9 @@ fn main() {
 
 fn dispatch_run(ctx: &Ctx, rep: &mut Report) {
     match ctx.prop.as_str() {
+        "C04" => c04::run(ctx, rep),
         "C08" => c08::run(ctx, rep),
+        "C18" => c18::run(ctx, rep),
         other => {
             eprintln!("unknown property {other}");
             std::process::exit(2);
@@ -109,7 +113,9 @@ fn dispatch_run(ctx: &Ctx, rep: &mut Report) {
 
 fn dispatch_replay(prop: &str, sub: &str, case: &serde_json::Value) -> Result<common::CaseInfo, common::Fail> {
     match prop {
+        "C04" => c04::replay(sub, case),
         "C08" => c08::replay(sub, case),
+        "C18" => c18::replay(sub, case),
         other => {
             eprintln!("unknown property {other}");
             std::process::exit(2);
